@@ -13,6 +13,7 @@
 package h
 
 import (
+	"syscall"
 	"bufio"
 	"crypto/sha256"
 	"encoding/hex"
@@ -517,6 +518,27 @@ func Scratch(prefix string) (string, func()) {
 		panic(err)
 	}
 	return d, func() { _ = os.RemoveAll(d) }
+}
+
+// DiskScratch returns a fresh scratch directory on a disk-backed file system (VERIF_SCRATCH_DISK, else /var/tmp) and a
+// cleanup function; ok is false when no such directory exists or it is a tmpfs as well. tmpfs accepts O_DIRECT but
+// ignores its alignment rules, and it never reorders directory entries - some behaviour only shows on a real file system.
+func DiskScratch(prefix string) (dir string, cleanup func(), ok bool) {
+	for _, base := range []string{os.Getenv("VERIF_SCRATCH_DISK"), "/var/tmp"} {
+		if base == "" {
+			continue
+		}
+		var st syscall.Statfs_t
+		if err := syscall.Statfs(base, &st); err != nil || st.Type == 0x01021994 /* TMPFS_MAGIC */ || st.Type == 0x858458f6 /* RAMFS_MAGIC */ {
+			continue
+		}
+		d, err := os.MkdirTemp(base, "verif-"+prefix+"-")
+		if err != nil {
+			continue
+		}
+		return d, func() { _ = os.RemoveAll(d) }, true
+	}
+	return "", func() {}, false
 }
 
 // Fuzz is the body of the native fuzz target of a property package (thorough tier only): the fuzzer's
